@@ -72,7 +72,7 @@ def _combiner(kind: str):
     return impl
 
 
-def _pred(kind: str, c: int):
+def _pred(kind: str, c: int = 0):
     if kind == "eq":
         return lambda d: d == c
     if kind == "ne":
@@ -81,6 +81,15 @@ def _pred(kind: str, c: int):
         return lambda d: d < c
     if kind == "bit":
         return lambda d: d[c]
+    # validators whose RESULT is wider than one bit ("non-zero means valid", Amaranth truthiness)
+    if kind == "mbit":
+        return lambda d: d & (1 << c)
+    if kind == "mnz":
+        return lambda d: d & ((1 << len(d)) - 1)
+    if kind == "mlow2":
+        return lambda d: d[0:2]
+    if kind == "minc":
+        return lambda d: d + 1
     raise ValueError(kind)
 
 
